@@ -23,8 +23,8 @@ type half struct {
 	mu       sync.Mutex
 	cond     *sync.Cond
 	buf      []byte
-	closed   bool  // writer closed: reader sees EOF after draining
-	broken   error // hard error for both reader and writer
+	closed   bool   // writer closed: reader sees EOF after draining
+	broken   error  // hard error for both reader and writer
 	Wire     []byte // everything ever written (capture)
 	Writes   []int  // length of every Write call
 	cutAfter int64  // >=0: break the connection after this many more bytes
@@ -45,7 +45,13 @@ type Conn struct {
 	closeOnce     sync.Once
 	peer          *Conn
 	Closed        int32
+	afterWrite    atomic.Value // func(): runs after the bytes of a Write are readable by the peer, before Write returns
 }
+
+// SetAfterWrite installs f to run inside every later Write of this end, after the written bytes have
+// become readable by the other end and before Write returns to its caller (a slow-returning write:
+// the peer may answer, and the answer may be processed, while the writer is still inside Write).
+func (c *Conn) SetAfterWrite(f func()) { c.afterWrite.Store(f) }
 
 var counter int64
 
@@ -137,6 +143,9 @@ func (c *Conn) Write(p []byte) (int, error) {
 			onCut()
 		}
 		return n, io.ErrClosedPipe
+	}
+	if f, _ := c.afterWrite.Load().(func()); f != nil {
+		f()
 	}
 	return n, nil
 }
